@@ -18,7 +18,7 @@ ASSUMPTIONS = ['exactq (Python int arithmetic: floor_ex, ceil_ex, nint_ex, frac_
                'operands are injected exactly through ctx.make_mpf/make_mpc (raw tuples) or as exactly equal Python numbers',
                'exponent gaps between dividend and divisor above 2*10^6 are only generated where the result does not need the '
                'implementation to materialise the shift (same-sign small dividend, power-of-two divisor)']
-SHARD_TIMEOUT = {'quick': 300, 'thorough': 2400}
+SHARD_TIMEOUT = {'quick': 600, 'thorough': 3600}
 LEVEL_TEXT = ('exploration: ~3*10^5 (quick) / ~3.8*10^6 (thorough) generated calls on the real code; every result compared bit-for-bit with '
               'the exact definition (exact when it fits in the precision, else its correct rounding)')
 LEVEL_NOTE = 'trusted base: vf/exactq.py (integer arithmetic only); inputs not generated are not covered'
